@@ -451,3 +451,165 @@ Qed.
 Theorem codec_roundtrip e t w fuel rest :
   wwt e t w -> (wsize w <= fuel)%nat -> wdec fuel e t (wenc e t w ++ rest) = Ok (w, rest).
 Proof. intros; apply wdec_wenc; assumption. Qed.
+
+(** * Skipping: thrift.Skip consumes exactly the encoding of any well-typed value *)
+Fixpoint wdepth (v : val) : Z :=
+  match v with
+  | VList l | VSet l =>
+    1 + (fix go (l : list val) : Z := match l with [] => 0 | x :: r => Z.max (wdepth x) (go r) end) l
+  | VMap l =>
+    1 + (fix go (l : list (val * val)) : Z :=
+           match l with [] => 0 | (k, x) :: r => Z.max (Z.max (wdepth k) (wdepth x)) (go r) end) l
+  | VRec l =>
+    1 + (fix go (l : list (Z * val)) : Z := match l with [] => 0 | (_, x) :: r => Z.max (wdepth x) (go r) end) l
+  | _ => 1
+  end.
+Fixpoint depth_seq (l : list val) : Z :=
+  match l with [] => 0 | x :: r => Z.max (wdepth x) (depth_seq r) end.
+Fixpoint depth_pairs (l : list (val * val)) : Z :=
+  match l with [] => 0 | (k, x) :: r => Z.max (Z.max (wdepth k) (wdepth x)) (depth_pairs r) end.
+Fixpoint depth_fields (l : list (Z * val)) : Z :=
+  match l with [] => 0 | (_, x) :: r => Z.max (wdepth x) (depth_fields r) end.
+Lemma wdepth_list l : wdepth (VList l) = 1 + depth_seq l. Proof. reflexivity. Qed.
+Lemma wdepth_set l : wdepth (VSet l) = 1 + depth_seq l. Proof. reflexivity. Qed.
+Lemma wdepth_map l : wdepth (VMap l) = 1 + depth_pairs l. Proof. reflexivity. Qed.
+Lemma wdepth_rec l : wdepth (VRec l) = 1 + depth_fields l. Proof. reflexivity. Qed.
+
+Definition sk_ok (e : env) (w : val) : Prop :=
+  forall t fuel depth rest, wwt e t w -> (wsize w <= fuel)%nat -> wdepth w <= depth ->
+  skip fuel depth (wtype e t) (wenc e t w ++ rest) = Ok rest.
+
+Lemma skip_seq_ok e et l :
+  Forall (sk_ok e) l -> Forall (wwt e et) l ->
+  forall fuel depth rest, (size_seq l <= fuel)%nat -> depth_seq l <= depth ->
+  skip_seq fuel depth (wtype e et) (zlen l) (wenc_seq e et l ++ rest) = Ok rest.
+Proof.
+  intros Hsk Hwt. induction l as [|x r IH]; intros fuel depth rest Hf Hd.
+  - destruct fuel; reflexivity.
+  - inversion Hsk as [|? ? Hx Hr]; subst. inversion Hwt as [|? ? Wx Wr]; subst.
+    cbn [size_seq] in Hf. cbn [depth_seq] in Hd. destruct fuel as [|f]; [lia|].
+    cbn [skip_seq]. rewrite zlen_cons.
+    pose proof (zlen_nonneg r) as Hz.
+    destruct (1 + zlen r <=? 0) eqn:E; [apply Z.leb_le in E; lia|].
+    cbn [wenc_seq]. rewrite <- app_assoc.
+    rewrite (Hx et f depth _ Wx) by lia. cbn [bind].
+    replace (1 + zlen r - 1) with (zlen r) by lia.
+    apply (IH Hr Wr f depth rest); lia.
+Qed.
+
+Lemma skip_pairs_ok e kt vt l :
+  Forall (fun kv => sk_ok e (fst kv) /\ sk_ok e (snd kv)) l ->
+  Forall (fun kv => wwt e kt (fst kv) /\ wwt e vt (snd kv)) l ->
+  forall fuel depth rest, (size_pairs l <= fuel)%nat -> depth_pairs l <= depth ->
+  skip_pairs fuel depth (wtype e kt) (wtype e vt) (zlen l) (wenc_pairs e kt vt l ++ rest) = Ok rest.
+Proof.
+  intros Hsk Hwt. induction l as [|[a b] r IH]; intros fuel depth rest Hf Hd.
+  - destruct fuel; reflexivity.
+  - inversion Hsk as [|? ? [Ha Hb] Hr]; subst. inversion Hwt as [|? ? [Wa Wb] Wr]; subst.
+    cbn [fst snd] in *.
+    cbn [size_pairs] in Hf. cbn [depth_pairs] in Hd. destruct fuel as [|f]; [lia|].
+    cbn [skip_pairs]. rewrite zlen_cons.
+    pose proof (zlen_nonneg r) as Hz.
+    destruct (1 + zlen r <=? 0) eqn:E; [apply Z.leb_le in E; lia|].
+    cbn [wenc_pairs]. rewrite <- !app_assoc.
+    rewrite (Ha kt f depth _ Wa) by lia. cbn [bind].
+    rewrite (Hb vt f depth _ Wb) by lia. cbn [bind].
+    replace (1 + zlen r - 1) with (zlen r) by lia.
+    apply (IH Hr Wr f depth rest); lia.
+Qed.
+
+(** fields typed by the writer's schema [ftyp] *)
+Definition wwt_entry_by (e : env) (ftyp : Z -> option ty) (ix : Z * val) : Prop :=
+  in_range 2 (fst ix) /\ match ftyp (fst ix) with Some ft => wwt e ft (snd ix) | None => False end.
+
+Lemma skip_fields_ok e ftyp l :
+  Forall (fun ix => sk_ok e (snd ix)) l -> Forall (wwt_entry_by e ftyp) l ->
+  forall fuel depth rest, (size_fields l <= fuel)%nat -> depth_fields l <= depth ->
+  skip_fields fuel depth (wenc_fields e ftyp l ++ rest) = Ok rest.
+Proof.
+  intros Hsk Hwt. induction l as [|[i x] r IH]; intros fuel depth rest Hf Hd.
+  - cbn [size_fields] in Hf. destruct fuel as [|f]; [lia|].
+    cbn [skip_fields wenc_fields app]. rewrite read_int_1 by lia. reflexivity.
+  - inversion Hsk as [|? ? Hx Hr]; subst. inversion Hwt as [|? ? [Wi Wx] Wr]; subst.
+    cbn [fst snd] in *.
+    cbn [size_fields] in Hf. cbn [depth_fields] in Hd. destruct fuel as [|f]; [lia|].
+    destruct (ftyp i) as [ft|] eqn:Eft; [|contradiction].
+    cbn [skip_fields wenc_fields]. rewrite Eft.
+    pose proof (wwt_wtype _ _ _ Wx) as Hw.
+    cbn [app]. rewrite read_int_1 by lia. cbn [bind].
+    destruct (wtype e ft =? 0) eqn:E0; [apply Z.eqb_eq in E0; lia|].
+    rewrite <- !app_assoc. rewrite read_int_be by (assumption || lia). cbn [bind].
+    rewrite (Hx ft f depth _ Wx) by lia. cbn [bind].
+    apply (IH Hr Wr f depth rest); lia.
+Qed.
+
+Lemma wwt_rec_by e t l :
+  wwt e t (VRec l) -> Forall (wwt_entry_by e (ftyp_of (struct_fields (shape_of e t)))) l.
+Proof.
+  intros H. apply wwt_rec in H. destruct H as [k [decls [Hs H]]]. rewrite Hs. exact H.
+Qed.
+
+Lemma skip_wenc e : forall w, sk_ok e w.
+Proof.
+  induction w using val_ind'; unfold sk_ok; intros t fuel depth rest Hwt Hf Hd.
+  - cbn [wwt] in Hwt. destruct fuel as [|f]; [cbn in Hf; lia|].
+    cbn [wdepth] in Hd. unfold wtype. rewrite Hwt. cbn [wtype_of_shape skip wenc].
+    destruct (depth <=? 0) eqn:E; [apply Z.leb_le in E; lia|]. cbn.
+    destruct b; reflexivity.
+  - cbn [wwt] in Hwt. destruct fuel as [|f]; [cbn in Hf; lia|].
+    cbn [wdepth] in Hd. unfold wtype. cbn [wenc]. cbv zeta.
+    destruct (shape_of e t) eqn:E; try contradiction.
+    + destruct Hwt as [Hn Hr]. cbn [int_width wtype_of_shape skip].
+      destruct (depth <=? 0) eqn:E1; [apply Z.leb_le in E1; lia|].
+      destruct Hn as [-> | [-> | [-> | ->]]]; cbn [Z.eqb Pos.eqb];
+        rewrite read_n_app by apply be_n_length; reflexivity.
+    + cbn [int_width wtype_of_shape skip].
+      destruct (depth <=? 0) eqn:E1; [apply Z.leb_le in E1; lia|].
+      cbn [Z.eqb Pos.eqb]. rewrite read_n_app by apply be_n_length; reflexivity.
+  - cbn [wwt] in Hwt. destruct Hwt as [Hs Hr]. destruct fuel as [|f]; [cbn in Hf; lia|].
+    cbn [wdepth] in Hd. unfold wtype. rewrite Hs. cbn [wtype_of_shape skip wenc].
+    destruct (depth <=? 0) eqn:E1; [apply Z.leb_le in E1; lia|].
+    cbn [Z.eqb Pos.eqb]. rewrite read_n_app by apply be_n_length; reflexivity.
+  - cbn [wwt] in Hwt. destruct Hwt as [Hs Hl]. destruct fuel as [|f]; [cbn in Hf; lia|].
+    cbn [wdepth] in Hd. unfold wtype. cbn [wenc]. rewrite <- app_assoc.
+    destruct Hs as [-> | ->]; cbn [wtype_of_shape skip];
+      (destruct (depth <=? 0) eqn:E1; [apply Z.leb_le in E1; lia|]);
+      cbn [Z.eqb Pos.eqb]; rewrite read_blob_be by assumption; reflexivity.
+  - apply wwt_list in Hwt. destruct Hwt as [et [Hs [Hl Hall]]].
+    rewrite wsize_list in Hf. rewrite wdepth_list in Hd. destruct fuel as [|f]; [lia|].
+    rewrite wenc_list_eq. unfold wtype at 1. rewrite Hs. cbn [elem_ty wtype_of_shape skip].
+    pose proof (zlen_nonneg l) as Hz.
+    assert (0 <= depth_seq l) by (clear; induction l; cbn [depth_seq]; lia).
+    destruct (depth <=? 0) eqn:E1; [apply Z.leb_le in E1; lia|].
+    cbn [Z.eqb Pos.eqb orb app]. rewrite read_int_1 by apply wtype_range. cbn [bind].
+    rewrite <- app_assoc. rewrite read_size_be by lia. cbn [bind].
+    apply (skip_seq_ok e et l H Hall f); lia.
+  - apply wwt_set in Hwt. destruct Hwt as [et [Hs [Hl Hall]]].
+    rewrite wsize_set in Hf. rewrite wdepth_set in Hd. destruct fuel as [|f]; [lia|].
+    rewrite wenc_set_eq. unfold wtype at 1. rewrite Hs. cbn [elem_ty wtype_of_shape skip].
+    pose proof (zlen_nonneg l) as Hz.
+    assert (0 <= depth_seq l) by (clear; induction l; cbn [depth_seq]; lia).
+    destruct (depth <=? 0) eqn:E1; [apply Z.leb_le in E1; lia|].
+    cbn [Z.eqb Pos.eqb orb app]. rewrite read_int_1 by apply wtype_range. cbn [bind].
+    rewrite <- app_assoc. rewrite read_size_be by lia. cbn [bind].
+    apply (skip_seq_ok e et l H Hall f); lia.
+  - apply wwt_map in Hwt. destruct Hwt as [kt [vt [Hs [Hl Hall]]]].
+    rewrite wsize_map in Hf. rewrite wdepth_map in Hd. destruct fuel as [|f]; [lia|].
+    rewrite wenc_map_eq. unfold wtype at 1. rewrite Hs. cbn [key_ty mval_ty wtype_of_shape skip].
+    pose proof (zlen_nonneg l) as Hz.
+    assert (0 <= depth_pairs l) by (clear; induction l as [|[a b] r]; cbn [depth_pairs]; lia).
+    destruct (depth <=? 0) eqn:E1; [apply Z.leb_le in E1; lia|].
+    cbn [Z.eqb Pos.eqb orb app]. rewrite read_int_1 by apply wtype_range. cbn [bind].
+    rewrite read_int_1 by apply wtype_range. cbn [bind].
+    rewrite <- app_assoc. rewrite read_size_be by lia. cbn [bind].
+    apply (skip_pairs_ok e kt vt l H Hall f); lia.
+  - cbn [wwt] in Hwt. contradiction.
+  - pose proof (wwt_rec_by _ _ _ Hwt) as Hall.
+    apply wwt_rec in Hwt. destruct Hwt as [k [decls [Hs _]]].
+    rewrite wsize_rec in Hf. rewrite wdepth_rec in Hd. destruct fuel as [|f]; [lia|].
+    rewrite wenc_rec_eq. unfold wtype. rewrite Hs. cbn [wtype_of_shape skip].
+    assert (0 <= depth_fields l) by (clear; induction l as [|[a b] r]; cbn [depth_fields]; lia).
+    destruct (depth <=? 0) eqn:E1; [apply Z.leb_le in E1; lia|].
+    cbn [Z.eqb Pos.eqb orb]. rewrite Hs in Hall.
+    apply (skip_fields_ok e _ l H Hall f); lia.
+Qed.
